@@ -132,9 +132,9 @@ example : ∃ (vb vb' : List (String × Bounds (Ext K))),
     (∀ name, Sub (Analyzer.varBounds vb name) (Analyzer.varBounds vb' name)) ∧ (∀ name, Ord (Analyzer.varBounds vb name)) :=
   ⟨[("x", ⟨.fin 1, .fin 2⟩)], [("x", ⟨.fin 0, .pinf⟩)], by
     intro n
-    by_cases h : "x" = n <;> simp [Analyzer.varBounds, AList.get?, h, Sub, Bounds.unbounded, Ext.le], by
+    by_cases h : "x" = n <;> simp [Analyzer.varBounds, AList.get?, h, BoundsProofs.Sub, Bounds.unbounded, Ext.le], by
     intro n
-    by_cases h : "x" = n <;> simp [Analyzer.varBounds, AList.get?, h, Ord, Bounds.unbounded, Ext.le]⟩
+    by_cases h : "x" = n <;> simp [Analyzer.varBounds, AList.get?, h, BoundsProofs.Ord, Bounds.unbounded, Ext.le]⟩
 
 /-- **The domain written into the compiled model contains every source-feasible point** — the form C01's
 composition consumes (`Rooc.LinP.sound_pipeline` is this statement for `Compile.linearize`): for the analyzer
